@@ -1,2 +1,4 @@
--- driver stub for C05: replaced by the real line-protocol driver
-def main : IO Unit := pure ()
+import Bermuda.Model.CodecJson
+open Bermuda
+/-- line-protocol driver of the codec model (shared by C05, C06 and C19) -/
+def main : IO Unit := serve Codec.handle
